@@ -7,6 +7,7 @@ import (
 	"go/types"
 	"math/big"
 	"os"
+	"runtime"
 	"strings"
 	"time"
 
@@ -129,6 +130,20 @@ func (e *Engine) stepState(s *State, budget *int, depth int) (out *State) {
 					return
 				}
 				s.Status = "unsupported: " + u.msg + " at " + e.instrPos(s, in) + " in " + f.Fn.String()
+				out = s
+				return
+			}
+			if re, ok := r.(runtime.Error); ok {
+				// an engine-internal type mismatch (typically an unknown value reaching an operation):
+				// the path is inconclusive, never a verdict
+				if e.initing {
+					if v, isVal := in.(ssa.Value); isVal {
+						s.top().Locals[v] = UnknownV{re.Error()}
+					}
+					out = s
+					return
+				}
+				s.Status = "unsupported: engine: " + re.Error() + " at " + e.instrPos(s, in) + " in " + f.Fn.String()
 				out = s
 				return
 			}
